@@ -159,6 +159,7 @@ type Summary struct {
 	WallS        float64        `json:"wall_s"`
 	Exhausted    bool           `json:"exhausted"` // enumeration finished
 	Problems     []string       `json:"problems"`
+	MoreFailures int            `json:"more_failures"` // failing runs beyond the first of each class
 	AggSig       string         `json:"agg_sig"` // order-dependent hash over (run index, signature, tape length) of all runs
 	ReplayOK     bool           `json:"replay_ok"`
 	ReplayMsg    string         `json:"replay_msg"`
@@ -380,10 +381,10 @@ func explore(t *testing.T, h *Harness, job *Job) *Summary {
 		cl := class(*f)
 		seenClass[cl]++
 		if seenClass[cl] > 1 {
-			sum.Failures = append(sum.Failures, FailureRec{Property: f.Property, Oracle: f.Oracle, Msg: f.Msg, RunIndex: i})
-			if len(sum.Failures) >= 8*job.MaxFail {
-				break
+			if seenClass[cl] <= 16 {
+				sum.Failures = append(sum.Failures, FailureRec{Property: f.Property, Oracle: f.Oracle, Msg: f.Msg, RunIndex: i})
 			}
+			sum.MoreFailures++
 			continue
 		}
 		rp := shrink(t, h, job, scn, runSeed, res, *f)
